@@ -54,19 +54,24 @@ theorem ResKeep.notifyResult (w : WorkerSt) (a t : Pid) (r : Res) : ResKeep w (w
     unfold WorkerSt.notifyFailure
     split
     · split
-      · exact (ResKeep.modProc w a (fun x => { x with awaitFailed := sinsert x.awaitFailed t }) (fun _ => rfl)).trans
-          (ResKeep.wakeSelecting _ a)
+      · refine (ResKeep.modProc w a _ ?_).trans (ResKeep.wakeSelecting _ a)
+        intro x; rfl
       · exact ResKeep.refl w
     · exact ResKeep.refl w
+
+theorem ResKeep.notifyPending (w : WorkerSt) (a t : Pid) : ResKeep w (w.notifyPending a t) := by
+  unfold WorkerSt.notifyPending
+  refine ResKeep.modProc w a _ ?_
+  intro x; rfl
 
 theorem ResKeep.applyResults (a : Pid) : ∀ (rs : Results) (w : WorkerSt), ResKeep w (applyResults w a rs)
   | [], w => ResKeep.refl w
   | (t, some r) :: rest, w => by
     unfold QM.Sys.applyResults
     exact (ResKeep.notifyResult w a t r).trans (ResKeep.applyResults a rest _)
-  | (_, none) :: rest, w => by
+  | (t, none) :: rest, w => by
     unfold QM.Sys.applyResults
-    exact ResKeep.applyResults a rest w
+    exact (ResKeep.notifyPending w a t).trans (ResKeep.applyResults a rest _)
 
 theorem ResKeep.foldl {α : Type} (f : WorkerSt → α → WorkerSt) (hf : ∀ w a, ResKeep w (f w a)) :
     ∀ (l : List α) (w : WorkerSt), ResKeep w (l.foldl f w)
@@ -309,6 +314,10 @@ theorem completedStatus_result {w : WorkerSt} {t : Pid} {r : Res} (h : w.complet
       · cases h
       · split at h
         · rename_i v hv; cases h; exact hv
+        · rename_i hv
+          split at h
+          · cases h; exact hv
+          · cases h
         · cases h
 
 /-- what `query_and_await` reports as completed is the target's result -/
